@@ -150,9 +150,18 @@ def op_cases(system: str, instance: int = 0) -> list[tuple[str, str]]:
         sp.sin(q2_) * q1_, q2_ * q3_**2])):
         src = Vector(list(comps), cs)
         F = VectorField.from_vector(src)
-        for use in ("point", "point-twice", "curl-then-point"):
+        for use in ("point", "point-twice", "curl-then-point", "basis-edit"):
             try:
-                if use == "curl-then-point":
+                if use == "basis-edit":
+                    # a caller takes the list of base scalars, edits its copy into a trajectory
+                    # and evaluates the field there
+                    plane = F.basis
+                    plane[2] = 0
+                    F.apply(plane)
+                    shell = F.basis
+                    shell[0] = 1
+                    F.apply(shell)
+                elif use == "curl-then-point":
                     curl_operator(F)(PT(*POINTS[system][0]))
                 else:
                     F(PT(*POINTS[system][0]))
@@ -171,6 +180,22 @@ def op_cases(system: str, instance: int = 0) -> list[tuple[str, str]]:
             if ok and list(src.components) != list(comps):
                 msg = f"the vector the field was made from was changed: {short(src.components, 160)}"
             out.append((f"history:{system_tag}:{name}:{use}", msg))
+    for name, f in B[4:9]:
+        fld = ScalarField.from_expression(f, cs)
+        try:
+            plane = fld.basis
+            plane[2] = 0
+            fld.apply(plane)
+        except Exception as ex:  # pylint: disable=broad-except
+            out.append((f"history:{system_tag}:scalar-basis-edit:{name}", f"raised {type(ex).__name__}"))
+            continue
+        g = gradient_operator(fld)
+        want = ref.grad(f)
+        ok = len(g.components) == 3 and all(zero_at_points(system, q, a - b) for a, b in zip(
+            g.components, want))
+        out.append((f"history:{system_tag}:scalar-basis-edit:{name}", "" if ok else
+            f"after the caller edited its copy of the base scalars the gradient of {name} is "
+            f"{short(g.components, 160)}"))
     # all slots generic at once, every component count
     G = [sp.Function(f"F{i}")(*q) for i in range(3)]
     for n in range(0, 4):
